@@ -5,7 +5,7 @@
    terminating NUL must be written by the operation itself. All writes are bounds-checked (SOverrun when outside, shown
    impossible in StrProofs.v). `mok` is the malloc oracle. The model follows the code with the repairs of
    fixes/C18-string-*.patch (an exactly fitting in-place format keeps its last character; assigning an empty
-   string/char-run/hex block clears the string). *)
+   string/char-run/hex block clears the string; a format whose allocation is refused leaves the string valid). *)
 From Coq Require Import ZArith List Bool.
 From Verif Require Import Containers.ArenaModel Containers.VecModel.
 Import ListNotations.
@@ -195,20 +195,23 @@ Fixpoint hex_text (data : list Z) (sep : Z) : list Z :=
 Definition str_op_hex (mok : Z -> bool) (s : str) (op : sop) (data : list Z) (sep : Z) : serr * str :=
   str_op_text mok s op (hex_text data sep).
 
-(* ---- _op_vformat, given the text the format expands to *)
+(* ---- _op_vformat, given the text the format expands to (with fixes/C18-string-format-failure.patch: only an append is
+   formatted straight into the buffer, and the terminator is restored when the output did not fit) *)
 Definition str_op_format (mok : Z -> bool) (s : str) (op : sop) (text : list Z) : serr * str :=
   let start := match op with OpAssign => 0 | OpAppend => s_size s end in
   let remaining := s_cap s - start in
   let len := zlength text in
-  if remaining >=? 128 then
+  if (match op with OpAppend => true | OpAssign => false end) && (remaining >=? 128) then
     (* vsnprintf straight into the buffer: at most `remaining` characters and the terminator *)
     let shown := zfirstn (Z.min len remaining) text in
     match buf_write (s_buf s) start (shown ++ [0]) with
     | None => (SOverrun, s)
     | Some b =>
-      let s1 := mkstr (s_kind s) b (s_size s) (s_cap s) in
       if len <=? remaining then (SOk, mkstr (s_kind s) b (start + len) (s_cap s))
-      else str_modify mok s1 op text
+      else match set_nul b start with
+           | None => (SOverrun, s)
+           | Some b1 => str_modify mok (mkstr (s_kind s) b1 (s_size s) (s_cap s)) op text
+           end
     end
   else if len <? 1024 then str_op_text mok s op text
   else str_modify mok s op text.
